@@ -65,6 +65,66 @@ theorem cadence_next (s d : Int) (next : Int) (ts : List Int) :
     · simp only [hle, if_false, count, Bool.false_eq_true]
       rw [ih]; simp
 
+/-! ### wall-time cadence: the clock is an arbitrary input -/
+theorem hbWall_int (d next w : Int) :
+    hbWall intOps d next w = if next ≤ w then (true, next + d) else (false, next) := by
+  simp only [hbWall, intOps]
+  by_cases h : next ≤ w <;> simp [h]
+
+theorem runWall_cons (d next w : Int) (r : List Int) :
+    runWall intOps d next (w :: r) =
+      ((hbWall intOps d next w).1 :: (runWall intOps d (hbWall intOps d next w).2 r).1,
+       (runWall intOps d (hbWall intOps d next w).2 r).2) := rfl
+
+/-- what holds for EVERY clock sequence: a snapshot is taken at a heartbeat iff the prescribed wall time has been
+    reached (never early, never omitted), at most one per heartbeat, and `next` moves by exactly one interval -/
+def WallSound (d : Int) : Int → List Int → List Bool → Prop
+  | _, [], [] => True
+  | next, w :: r, b :: bs => (b = true ↔ next ≤ w) ∧ WallSound d (if b then next + d else next) r bs
+  | _, _, _ => False
+
+theorem wall_sound (d next : Int) (ws : List Int) : WallSound d next ws (runWall intOps d next ws).1 := by
+  induction ws generalizing next with
+  | nil => simp [runWall, WallSound]
+  | cons w r ih =>
+    rw [runWall_cons, hbWall_int]
+    by_cases hle : next ≤ w
+    · simp only [hle, if_true, WallSound, true_iff, true_and]; exact ih _
+    · simp only [hle, if_false, WallSound, false_iff, not_false_eq_true, Bool.false_eq_true, true_and]; exact ih _
+
+theorem wall_next (d next : Int) (ws : List Int) :
+    (runWall intOps d next ws).2 = next + (count (runWall intOps d next ws).1 : Int) * d := by
+  induction ws generalizing next with
+  | nil => simp [runWall, count]
+  | cons w r ih =>
+    rw [runWall_cons, hbWall_int]
+    by_cases hle : next ≤ w
+    · simp only [hle, if_true, count]
+      rw [ih]
+      have : ((1 + count (runWall intOps d (next + d) r).1 : Nat) : Int) = 1 + (count (runWall intOps d (next + d) r).1 : Int) := by omega
+      rw [this, Int.add_mul]; omega
+    · simp only [hle, if_false, count, Bool.false_eq_true]
+      rw [ih]; simp
+
+/-- with a clock that is non-decreasing and advances by at most one interval between heartbeats the wall-time
+    cadence is exact (it is the interval cadence with sign +1) -/
+theorem wall_exact (d : Int) (hd : 0 < d) (p next : Int) (ws : List Int)
+    (hinv : p < next) (hc : Chain 1 d p ws) :
+    Exact 1 d next ws (runWall intOps d next ws).1 := by
+  have h1 : ∀ (n : Int) (l : List Int), runWall intOps d n l = run intOps 1 d n l := by
+    intro n l
+    induction l generalizing n with
+    | nil => rfl
+    | cons w r ih =>
+      rw [runWall_cons, run_cons, hbWall_int, hb_int]
+      by_cases hle : n ≤ w
+      · have : (1 : Int) * n ≤ 1 * w := by omega
+        simp only [hle, this, if_true]; rw [ih]; simp
+      · have : ¬ ((1 : Int) * n ≤ 1 * w) := by omega
+        simp only [hle, this, if_false]; rw [ih]
+  rw [h1]
+  exact cadence_exact 1 d (Or.inl rfl) hd p next ws (by omega) hc
+
 def ChainStep (step : Nat) : Nat → List Nat → Prop
   | _, [] => True
   | p, t :: r => p ≤ t ∧ t ≤ p + step ∧ ChainStep step t r
